@@ -62,7 +62,7 @@ __CPROVER_requires(rhs_p->defined && rhs_p->readonly && x_p->defined && !x_p->re
 __CPROVER_requires(!self->r->defined && !self->s->defined && !self->p->defined && !self->q->defined)
 __CPROVER_requires(!self->r->readonly && !self->s->readonly && !self->p->readonly && !self->q->readonly)
 __CPROVER_requires(rhs_p->id == 1 && x_p->id == 2 && self->r->id == 3 && self->s->id == 4 && self->p->id == 5 && self->q->id == 6)
-__CPROVER_requires(g_norm_calls == 0 && g_res_calls == 0 && g_clear_calls == 0 && g_papply_calls == 0)
+__CPROVER_requires(ORCH_GHOSTS_ZERO)
 #ifdef VARIANT_CONVERGED_GUESS
 /* C15: the initial guess already satisfies the tolerance */
 __CPROVER_requires(!EARLY(self) && !UF_LESS(EPSV(self), math_norm(g_norm_in1)))
@@ -70,9 +70,7 @@ __CPROVER_requires(!EARLY(self) && !UF_LESS(EPSV(self), math_norm(g_norm_in1)))
 __CPROVER_assigns(x_p->defined, x_p->version)
 __CPROVER_assigns(self->r->defined, self->r->version, self->s->defined, self->s->version)
 __CPROVER_assigns(self->p->defined, self->p->version, self->q->defined, self->q->version)
-__CPROVER_assigns(g_last_norm_val, g_last_norm_id, g_last_norm_ver, g_norm_calls, g_norm_id0, g_norm_id1)
-__CPROVER_assigns(g_res_f, g_res_A, g_res_x, g_res_r, g_res_xver, g_res_rver, g_res_calls)
-__CPROVER_assigns(g_papply_in, g_papply_out, g_papply_outver, g_papply_calls, g_clear_id, g_clear_calls)
+__CPROVER_assigns(ORCH_GHOSTS)
 /* C01: iteration budget */
 __CPROVER_ensures(__CPROVER_return_value.iters <= self->prm.maxiter)
 /* C15: zero right-hand side -> zero vector in zero iterations, residual = ||rhs|| */
@@ -118,7 +116,7 @@ CG_LOOP = r'''
 __CPROVER_assigns(iter, rho1, rho2, res_norm, x_p->version, x_p->defined,
   r->defined, r->version, s->defined, s->version, p->defined, p->version, q->defined, q->version,
   g_last_norm_val, g_last_norm_id, g_last_norm_ver, g_norm_calls, g_norm_id0, g_norm_id1,
-  g_papply_in, g_papply_out, g_papply_outver, g_papply_calls)
+  g_papply_in, g_papply_out, g_papply_outver, g_papply_calls, g_ax_a, g_ax_b, g_ax_x, g_ax_y, g_ax_calls, g_ax_xver)
 __CPROVER_loop_invariant(iter <= prm.maxiter)
 __CPROVER_loop_invariant(r->defined && x_p->defined && (iter > 0 ==> p->defined))
 __CPROVER_loop_invariant(x_p->version == __CPROVER_loop_entry(x_p->version) + iter)
@@ -150,4 +148,140 @@ cg = Unit(
                  'convergence within the budget; rounding bounded by conditioning'],
 )
 
-UNITS = [cg]
+
+# ---------------------------------------------------------------------------- Richardson
+SIG4 = r'std::tuple<size_t, scalar_type> operator\(\)\(\s*const Matrix &A, const Precond &P, const Vec1 &rhs, Vec2 &&x\) const\s*(?=\{)'
+
+RICH_T = r"""
+#include "orch.h"
+int g_thrown;
+typedef struct rich_params { V damping; size_t maxiter; V tol; V abstol; _Bool ns_search; _Bool verbose; } rich_params;
+typedef struct rich { rich_params prm; size_t n; vec *r, *s; } rich;
+#define EPS1 EPS(1)
+#define EARLY(self) (UF_LESS(g_norm_in0, EPS1) && !(self)->prm.ns_search)
+#define NRHS(self) (UF_LESS(g_norm_in0, EPS1) ? MATH_identity(V) : g_norm_in0)
+#define EPSV(self) UF_MAX(UF_MUL((self)->prm.tol, NRHS(self)), (self)->prm.abstol)
+#define RET __CPROVER_return_value
+
+result f_rich(const rich *self, const mat *A_p, const precond *P_p, const vec *rhs_p, vec *x_p)
+__CPROVER_requires(__CPROVER_is_fresh(self, sizeof(*self)) && __CPROVER_is_fresh(A_p, sizeof(mat)) && __CPROVER_is_fresh(P_p, sizeof(precond)))
+__CPROVER_requires(__CPROVER_is_fresh(rhs_p, sizeof(vec)) && __CPROVER_is_fresh(x_p, sizeof(vec)))
+__CPROVER_requires(__CPROVER_is_fresh(self->r, sizeof(vec)) && __CPROVER_is_fresh(self->s, sizeof(vec)))
+__CPROVER_requires(UF_AXIOMS && self->prm.maxiter <= MAXITER_BOUND)
+__CPROVER_requires(rhs_p->defined && rhs_p->readonly && x_p->defined && !x_p->readonly)
+/* C15: workspace holds garbage of earlier calls */
+__CPROVER_requires(!self->r->defined && !self->s->defined && !self->r->readonly && !self->s->readonly)
+__CPROVER_requires(rhs_p->id == 1 && x_p->id == 2 && self->r->id == 3 && self->s->id == 4)
+__CPROVER_requires(ORCH_GHOSTS_ZERO)
+#ifdef VARIANT_CONVERGED_GUESS
+__CPROVER_requires(!EARLY(self) && !UF_LESS(EPSV(self), math_norm(g_norm_in1)))
+#endif
+__CPROVER_assigns(x_p->defined, x_p->version, self->r->defined, self->r->version, self->s->defined, self->s->version)
+__CPROVER_assigns(ORCH_GHOSTS)
+/* C01: budget */
+__CPROVER_ensures(RET.iters <= self->prm.maxiter)
+/* C15: zero rhs */
+__CPROVER_ensures(EARLY(self) ==> (RET.iters == 0 && RET.resid == g_norm_in0 && g_clear_calls == 1 && g_clear_id == x_p->id && g_res_calls == 0))
+/* C01: the number reported is ||r|| / ||rhs|| where r was computed by residual(rhs, A, x, r) from the
+ * x that is returned (x has not been written since) */
+__CPROVER_ensures(!EARLY(self) ==> (RET.resid == UF_DIV(g_last_norm_val, NRHS(self))
+     && g_last_norm_id == self->r->id && g_last_norm_ver == self->r->version && g_norm_id0 == rhs_p->id && g_clear_calls == 0
+     && g_res_f == rhs_p->id && g_res_A == A_p->id && g_res_x == x_p->id && g_res_r == self->r->id
+     && g_res_xver == x_p->version && g_res_rver == self->r->version))
+/* C05: k iterations = k times { s = P r; x = damping*s + 1*x; r = rhs - A x; ||r|| } after one initial residual */
+__CPROVER_ensures(!EARLY(self) ==> (g_papply_calls == RET.iters && g_ax_calls == RET.iters && g_res_calls == 1 + RET.iters
+     && g_norm_calls == 2 + RET.iters && x_p->version == __CPROVER_old(x_p->version) + RET.iters))
+__CPROVER_ensures((!EARLY(self) && RET.iters > 0) ==> (g_papply_in == self->r->id && g_papply_out == self->s->id
+     && g_ax_a == self->prm.damping && g_ax_x == self->s->id && g_ax_xver == g_papply_outver
+     && g_ax_b == MATH_identity(V) && g_ax_y == x_p->id))
+/* C01: stopping early means the reported residual passed the test */
+__CPROVER_ensures((!EARLY(self) && RET.iters < self->prm.maxiter) ==> !UF_LESS(EPSV(self), math_norm(g_last_norm_val)))
+__CPROVER_ensures((!EARLY(self) && RET.iters == 0 && self->prm.maxiter > 0) ==> !UF_LESS(EPSV(self), math_norm(g_norm_in1)))
+#ifdef VARIANT_CONVERGED_GUESS
+__CPROVER_ensures(RET.iters == 0 && x_p->version == __CPROVER_old(x_p->version))
+#endif
+__CPROVER_ensures(x_p->defined)
+{
+  const rich_params prm = self->prm;
+  vec *const r = self->r, *const s = self->s;
+#define A (*A_p)
+#define P (*P_p)
+#define rhs (*rhs_p)
+#define x (*x_p)
+/*@CUT:body@*/
+#undef A
+#undef P
+#undef rhs
+#undef x
+}
+void h_f_rich(void) { const rich *self; const mat *A; const precond *P; const vec *rhs; vec *x; f_rich(self, A, P, rhs, x); }
+"""
+
+RICH_LOOP = r"""
+__CPROVER_assigns(iter, res_norm, x_p->version, x_p->defined, r->defined, r->version, s->defined, s->version, ORCH_GHOSTS)
+__CPROVER_loop_invariant(iter <= prm.maxiter)
+__CPROVER_loop_invariant(r->defined && x_p->defined)
+__CPROVER_loop_invariant(x_p->version == __CPROVER_loop_entry(x_p->version) + iter)
+__CPROVER_loop_invariant(g_last_norm_id == r->id && g_last_norm_ver == r->version && res_norm == g_last_norm_val)
+__CPROVER_loop_invariant(g_res_f == rhs_p->id && g_res_A == A_p->id && g_res_x == x_p->id && g_res_r == r->id && g_res_xver == x_p->version && g_res_rver == r->version)
+__CPROVER_loop_invariant(g_norm_calls == 2 + iter && g_norm_id0 == __CPROVER_loop_entry(g_norm_id0))
+__CPROVER_loop_invariant(g_res_calls == 1 + iter && g_papply_calls == iter && g_ax_calls == iter && g_clear_calls == 0)
+__CPROVER_loop_invariant(iter > 0 ==> (g_papply_in == r->id && g_papply_out == s->id && g_ax_a == prm.damping && g_ax_x == s->id
+                                      && g_ax_xver == g_papply_outver && g_ax_b == one && g_ax_y == x_p->id))
+__CPROVER_loop_invariant(iter == 0 ==> res_norm == g_norm_in1)
+#ifdef VARIANT_CONVERGED_GUESS
+__CPROVER_loop_invariant(iter == 0)
+#endif
+__CPROVER_decreases(prm.maxiter - iter)
+"""
+
+richardson = Unit(
+    name='solver_richardson', props=['C01', 'C05', 'C15', 'C10'],
+    functions=['solver::richardson<Backend>::operator()(A, P, rhs, x)'],
+    desc='Richardson: x <- x + damping * P (rhs - A x), k times; reported residual is the norm of residual(rhs,A,x) of the returned x',
+    cuts={'body': Cut('amgcl/solver/richardson.hpp', SIG4, rules=DROP_IO + SOLVER_RULES, uf=SOLVER_UF,
+                      loops=[Loop(r'for\(; iter\b', RICH_LOOP, prefix=True)])},
+    template=RICH_T, enforce='f_rich', replace=ORCH, mode='inductive', obj_bits=12,
+    variants=[{}, {'VARIANT_CONVERGED_GUESS': 1, 'CXC_NOCOVER': 1}],
+    assumptions=A_ORCH,
+    not_decided=['convergence rate equals the cycle contraction factor (spectral statement)'],
+)
+
+# ---------------------------------------------------------------------------- preonly
+PREONLY_T = r"""
+#include "orch.h"
+int g_thrown;
+#define RET __CPROVER_return_value
+result f_preonly(const mat *A_p, const precond *P_p, const vec *rhs_p, vec *x_p)
+__CPROVER_requires(__CPROVER_is_fresh(A_p, sizeof(mat)) && __CPROVER_is_fresh(P_p, sizeof(precond)))
+__CPROVER_requires(__CPROVER_is_fresh(rhs_p, sizeof(vec)) && __CPROVER_is_fresh(x_p, sizeof(vec)))
+__CPROVER_requires(rhs_p->defined && rhs_p->readonly && !x_p->readonly && rhs_p->id == 1 && x_p->id == 2 && ORCH_GHOSTS_ZERO)
+__CPROVER_assigns(x_p->defined, x_p->version, ORCH_GHOSTS)
+/* C05/C18: exactly one application of the preconditioner to rhs, result in x; (0, 0) returned */
+__CPROVER_ensures(g_papply_calls == 1 && g_papply_in == rhs_p->id && g_papply_out == x_p->id && x_p->defined)
+__CPROVER_ensures(RET.iters == 0 && RET.resid == UF_CONST(0))
+{
+#define P (*P_p)
+#define rhs (*rhs_p)
+#define x (*x_p)
+/*@CUT:body@*/
+#undef P
+#undef rhs
+#undef x
+}
+void h_f_preonly(void) { const mat *A; const precond *P; const vec *rhs; vec *x; f_preonly(A, P, rhs, x); }
+"""
+preonly = Unit(
+    name='solver_preonly', props=['C05', 'C18', 'C15', 'C10'],
+    functions=['solver::preonly<Backend>::operator()(A, P, rhs, x)'],
+    desc='preonly: exactly one P.apply(rhs, x)',
+    cuts={'body': Cut('amgcl/solver/preonly.hpp',
+                      r'std::tuple<size_t, scalar_type> operator\(\)\(\s*const Matrix&, const Precond &P, const Vec1 &rhs, Vec2 &&x\) const\s*(?=\{)',
+                      rules=[Rule(r'\bP\.apply\(', 'P_APPLY(P, ', '+'),
+                             Rule(r'\bstd_make_tuple\(', 'MAKE_RESULT(', '+'),
+                             UFArgs(r'MAKE_RESULT', '+', skip=[0])])},
+    template=PREONLY_T, enforce='f_preonly', replace=ORCH, mode='loopfree', obj_bits=12,
+    assumptions=A_ORCH,
+)
+
+UNITS = [cg, richardson, preonly]
